@@ -430,6 +430,18 @@ class MinMaxAggregator:
                 lits_with_vars.append(blit)
             else:
                 lits_without_vars.append(blit)
+        # a literal that binds a variable of an already selected literal belongs to the group as well
+        # (X = #sum { ..U.. } needs the s(U) that binds U)
+        changed = True
+        while changed:
+            changed = False
+            for blit in list(lits_without_vars):
+                blit_vars = set(x for x in collect_ast(blit, "Variable") if x.name != "_" and x in global_variables)
+                if blit_vars.intersection(rest_vars):
+                    lits_without_vars.remove(blit)
+                    lits_with_vars.append(blit)
+                    rest_vars.update(blit_vars)
+                    changed = True
         if rule.ast_type == ASTType.Minimize:
             rest_vars.update(inside_variables.intersection(collect_ast(rule.weight, "Variable")))
             rest_vars.update(inside_variables.intersection(collect_ast(rule.priority, "Variable")))
